@@ -4,6 +4,7 @@
      run      input "<case>"          -> model log under a pseudo-random schedule derived from the case's seed,
                                          followed by " # ok|bad:<n>" (the predicate on the model's own log)
      explore  input "<case>"          -> "<states> <transitions> <rejected> <terminal> <capped 0/1>": all schedules (BFS)
+     member   input "<case> # <log>"  -> "in|out:arbs|out:ret|cap <states> <transitions>": is the log one the model can produce?
      blockon  input "<pend> <value> <spawned>" -> "<value> <tasks run>"
    case/log syntax: see harness/h_rt/src/main.rs *)
 open Gen
@@ -146,6 +147,42 @@ let explore line =
   done;
   Printf.sprintf "%d %d %d %d %d" (Hashtbl.length seen) !trans !bad !term !capped
 
+
+(* is the implementation's log one of the logs the model can produce?  All schedules are explored; a state counts
+   once the coordinator has executed the whole script.  The harness reads the return value and the per-arbiter
+   logs at two different moments, so the two projections (ops, arbs) and (ops, ret) are looked up separately. *)
+let member line =
+  match String.index_opt line '#' with
+  | None -> failwith "member: no #"
+  | Some i ->
+    let (userun, _, ops) = parse_case (String.sub line 0 i) in
+    let g = parse_log (String.sub line (i + 1) (String.length line - i - 1)) in
+    let cap = 400000 in
+    let seen = Hashtbl.create 4096 in
+    let q = Queue.create () in
+    let key s = Marshal.to_string s [] in
+    let s0 = init ops in
+    Hashtbl.add seen (key s0) (); Queue.add s0 q;
+    let trans = ref 0 and capped = ref false and in_arbs = ref false and in_ret = ref false in
+    while not (Queue.is_empty q) do
+      let s = Queue.pop q in
+      (if s.rest = [] then
+         let m = observable_log userun s in
+         if m.g_ops = g.g_ops then begin
+           if m.g_arbs = g.g_arbs then in_arbs := true;
+           if m.g_ret = g.g_ret then in_ret := true
+         end);
+      List.iter (fun s' ->
+        incr trans;
+        let k = key s' in
+        if not (Hashtbl.mem seen k) then
+          if Hashtbl.length seen >= cap then capped := true
+          else (Hashtbl.add seen k (); Queue.add s' q)) (enabled s)
+    done;
+    Printf.sprintf "%s %d %d"
+      (if !in_arbs && !in_ret then "in" else if !capped then "cap" else if not !in_arbs then "out:arbs" else "out:ret")
+      (Hashtbl.length seen) !trans
+
 let blockon line =
   match List.map int_of_string (words line) with
   | [p; v; sp] -> let (o, ran) = block_on (nat_of_int p) (z_of_int v) (nat_of_int sp) O in
@@ -154,7 +191,7 @@ let blockon line =
 
 let () =
   let f = match Sys.argv.(1) with
-    | "accept" -> accept | "run" -> run_mode | "explore" -> explore | "blockon" -> blockon
+    | "accept" -> accept | "member" -> member | "run" -> run_mode | "explore" -> explore | "blockon" -> blockon
     | m -> failwith ("unknown mode " ^ m) in
   try while true do
     let line = input_line stdin in
